@@ -1,6 +1,7 @@
 import GE.Model.TagSem
 import GE.Model.Expr
 import GE.Model.Rlm
+import GE.Model.TagScope
 /-!
 An executable instance of `GE.TagSem.Sem` over JSON-like values, used to compare the tag-level model with the
 real runtime (`tagsem` op of the driver): expressions are the compiler's AST (`GE.Expr`, scope-converted), evaluated
@@ -199,6 +200,9 @@ def jsonSem : Sem TE J Bool where
   isNone := fun t => t
   keyMarks := fun _ _ => true
   anyMarked := fun _ _ => true
+  reads := fun e f => match e with
+    | .expr x => f ∈ GE.TagScope.dataFields x
+    | .mix ps => ps.any fun p => match p with | .inl _ => false | .inr x => f ∈ GE.TagScope.dataFields x
 
 /-! ### printing a node tree (canonical text compared with the real runtime's dump) -/
 
